@@ -10,7 +10,7 @@ import ast
 import os
 from dataclasses import dataclass, field
 
-from . import AnalysisError, localnames
+from . import AnalysisError, localnames, normalize
 from .astutil import contains_yield, path_of, walk_scope, walk_stmts
 
 PKG = "happysimulator"
@@ -197,6 +197,8 @@ class Program:
         self._subs_cache: dict[str, list[ClassInfo]] | None = None
         self.parse_failures: list[str] = []
         self.locals_recovered = 0  # locals renamed back to their reference names (see localnames.py)
+        self.helpers_inlined = 0   # private helpers absent from the reference tree inlined at their call sites (see normalize.py)
+        self.temps_inlined = 0     # temporaries absent from the reference tree replaced by the expression they alias
 
     # ------------------------------------------------------------------ loading
     @classmethod
@@ -217,6 +219,7 @@ class Program:
                         src = fh.read()
                     tree = ast.parse(src, filename=path)
                     prog.locals_recovered += localnames.recover(tree, rel)
+                    prog.helpers_inlined += normalize.inline_new_helpers(tree, rel)
                 except (SyntaxError, UnicodeDecodeError, OSError) as exc:
                     prog.parse_failures.append(f"{rel}: {exc}")
                     continue
@@ -228,6 +231,7 @@ class Program:
                 prog.by_name[dotted] = mod
         for mod in prog.modules.values():
             prog._index_module(mod)
+        prog.temps_inlined = normalize.inline_new_temps(prog)
         return prog
 
     def _index_module(self, mod: Module) -> None:
